@@ -302,11 +302,14 @@ class URLInfo(object):
         # The zone identifier ("%eth0") is free text as far as the
         # ipaddress module is concerned.
         if any(char in hostname
-               for char in FORBIDDEN_HOSTNAME_CHARS - frozenset(':%')):
+               for char in FORBIDDEN_HOSTNAME_CHARS - frozenset(':%')) \
+                or any(ord(char) > 127 for char in hostname) \
+                or any(char.isspace() for char in hostname):
             raise ValueError('Invalid IPv6 address: {}'
                              .format(ascii(hostname)))
 
-        return hostname
+        # Like any other host, it is lowercase in the normalized URL.
+        return hostname.lower()
 
     @property
     def query_map(self):
